@@ -8,6 +8,7 @@ about every execution — whatever the data, the flags and the interrupt flip-fl
 -/
 import Emu2a.Props.C11x.Terminates
 import Emu2a.Props.C09
+import Emu2a.Props.C04
 namespace Emu2a.C11
 open Emu2a Machine Flow
 
@@ -99,6 +100,59 @@ theorem keyClock_terminates_pending (m : Machine) (a : Isa.Arch) (h : AtFetch m.
   obtain ⟨k, _, hdone⟩ := reach_fetch_of_visited (start op) (C09.defined_complete_bounded op ho hd hm hv)
     (plain_no_second op ho hp) _ hvis
   exact keyClock_terminates_of_reach m a h (k + 1) (by omega) (by rw [Core.iter_succ]; exact hdone)
+
+/-- **Termination of the assembly step, whatever the interrupt request**: from an instruction boundary
+with ANY instruction that samples the request when it ends — every defined one-byte instruction
+except EI / DI / RETI, MUL and DIV with any operands, and every two-byte instruction with a defined
+second byte — `trigger_key_clock` in assembly mode returns, whether or not a request is pending and
+whatever the interrupt-enable flag is: the instruction runs to its end word with the flip-flop
+untouched (C04 `instr_to_end`), then either the next fetch follows or the nine-step interrupt entry. -/
+theorem keyClock_terminates_any_request (m : Machine) (a : Isa.Arch) (h : AtFetch m.core a) (hs : C04.Sampling a) :
+    ∃ fuel m', keyClock fuel m = some m' := by
+  obtain ⟨n, a', _, he, hpi⟩ := C04.instr_to_end m.core a h hs
+  by_cases hcond : (flagBit a'.fr Gen.C.flagIE && (Core.iter n m.core).pendInt) = true
+  · simp only [Bool.and_eq_true] at hcond
+    have hf := IntEntry.end_to_int _ _ he hcond.2 hcond.1
+    have hdone : (Core.iter (n + 9) m.core).done = true := by
+      rw [C01.iter_add]; simp only [Core.done, hf.1.fetch]; decide
+    exact keyClock_terminates_of_reach m a h (n + 9) (by omega) hdone
+  · have hf := IntEntry.end_to_fetch _ _ he (by simpa using hcond)
+    have hdone : (Core.iter (n + 1) m.core).done = true := by
+      rw [C01.iter_add]; simp only [Core.iter_succ, Core.iter_zero, Core.done, hf.1.fetch]; decide
+    exact keyClock_terminates_of_reach m a h (n + 1) (by omega) hdone
+
+/-- **A step always returns** (from an instruction boundary): with any defined instruction at PC —
+one-byte, two-byte with a defined second byte, MUL and DIV with any operands — and ANY state of the
+interrupt flip-flop and of the interrupt-enable flag, `trigger_key_clock` in assembly mode returns. -/
+theorem keyClock_terminates_all (m : Machine) (a : Isa.Arch) (h : AtFetch m.core a) (hc : C01.Covered a) :
+    ∃ fuel m', keyClock fuel m = some m' := by
+  have hlt := (a.bus.read a.pc).isLt
+  by_cases hs : C04.Sampling a
+  · exact keyClock_terminates_any_request m a h hs
+  · -- not sampling: EI, DI or RETI (one-byte, no loop)
+    rcases hc with h1 | ⟨h2, h3⟩
+    · have hp : plainOp (a.bus.read a.pc).toNat = true := by
+        unfold C04.Sampling at hs
+        simp only [not_or] at hs
+        have hns := hs.1
+        simp only [C04.sampling1, h1, Bool.true_and, Bool.and_eq_true, Bool.not_eq_true', not_and,
+          Bool.not_eq_false] at hns
+        simp only [C01.covered1, Bool.and_eq_true, decide_eq_true_eq] at h1
+        unfold plainOp
+        simp only [h1.1, Bool.true_and, Bool.and_eq_true, Bool.not_eq_true', decide_eq_true_eq]
+        refine ⟨⟨?_, ?_⟩, h1.2⟩
+        · unfold Isa.isMul
+          by_cases hx : (8 ≤ (a.bus.read a.pc).toNat && (a.bus.read a.pc).toNat ≤ 15) = true
+          · simp only [Bool.and_eq_true, decide_eq_true_eq] at hx; simp; omega
+          · have := hns (by simpa using hx)
+            simp only [Bool.and_eq_true, decide_eq_true_eq] at this; simp; omega
+        · unfold Isa.isDiv
+          by_cases hx : (8 ≤ (a.bus.read a.pc).toNat && (a.bus.read a.pc).toNat ≤ 15) = true
+          · simp only [Bool.and_eq_true, decide_eq_true_eq] at hx; simp; omega
+          · have := hns (by simpa using hx)
+            simp only [Bool.and_eq_true, decide_eq_true_eq] at this; simp; omega
+      exact keyClock_terminates_pending m a h _ hlt (by simp) hp
+    · exact absurd (Or.inr ⟨h2, h3⟩) hs
 
 /-- Non-vacuity: `ADD R0,R1` (0x61) is a plain opcode and its dispatch node is visited. -/
 example : plainOp 0x61 = true ∧ (start 0x61).length = 1 := by decide
